@@ -70,11 +70,15 @@ CHECKS["C10"] = {
             "IGN:1 STR:2 HDY TTH UCH,10 EXP STR:*); per sequence: all combinations of 3 (length 4: 2) values per field, bit fields "
             "additionally over their full domain for ownership discovery; formats plain, names, JSON, numeric, "
             "JSON+value-name; every single-bit flip of the encoded data of 3 (2) uniform value combinations.  "
+            "Barrier family (both tiers, cheap structural oracles only): one bit field ; 1..2 full-byte fields ; 2 "
+            "(thorough 3) bit fields over all 8 sub-byte and 22 full-byte types, master and slave part (518 144 "
+            "sequences of length 4-5 in quick).  "
             "distinct = distinct (sequence, encoded master, encoded slave).",
     "assumptions": [
         "a full-byte field owns whole bytes, a BIx:n field owns bits x..x+n-1 of one byte",
         "sequences whose definitions overlap (bit ranges of two bit fields sharing a byte intersect) keep oracles (1)-(4) but not the single-field encoding comparison",
         "for a sequence ending in a variable-length field getLength(part, n) must equal n when n bytes were written",
+        "a full-byte field is a layout barrier: the fields behind it are laid out (length, encoding, decoding) exactly as if they stood alone, whatever precedes it",
         "a bit field directly following a bit field with the same first bit starts a new byte (BI0;BI0 and BI0;BI7;BI0 are two bytes, as the repository's test rows fix); it never shares the byte",
         "TTH (6 bits) may be read as a bit field that shares its byte or as a full-byte field; a sequence fails only if it is inconsistent under both readings",
     ],
@@ -100,11 +104,15 @@ CHECKS["C12"] = {
                   "Load order: every permutation of the template lines x every permutation of the message lines is "
                   "loaded in its own process and must give identical dumps, lookups, decodes and encodes",
     "level_note": "hidden state outside the fingerprint would only hide behaviour (checked by the stateless pass), it cannot "
-                  "create an alarm; operations are 57 (thorough 63) representatives of the type families, not every "
+                  "create an alarm; operations are 81 (thorough 87) representatives of the type families, not every "
                   "type; load order uses 3x4 (thorough 4x6) mutually independent lines (distinct names and IDs, no "
                   "defaults, no conditions)",
     "technique": "explicit-state BFS over operation histories of the real codec with canonical state hashing to a fixpoint, plus exhaustive permutation of definition lines",
-    "rule": "operations: encode of UCH/ULG/SLG/BCD/PIN/BI0:3/D2C/UCH,10/UIN range/EXP/STR/HEX/BDA/BTI/TTM/HDY/value list "
+    "rule": "field kinds plain / value list / constant (=v) / verified constant (==v); constant fields of BTI BDA:3 TTM HEX STR "
+            "UCH BCD D2C and inside a multi-field definition are decoded with matching data, different data, data "
+            "invalid for the type (incl. errors detected after part of the text was produced) and too short data, "
+            "and encoded; "
+            "operations: encode of UCH/ULG/SLG/BCD/PIN/BI0:3/D2C/UCH,10/UIN range/EXP/STR/HEX/BDA/BTI/TTM/HDY/value list "
             "with valid, out-of-range, malformed, empty, null, NaN and overflowing (ERANGE) texts; decode of the same "
             "families incl. three multi-field definitions formatted onto the one shared stream; definition + dump "
             "(csv/JSON with min/max/step) with divisor and range derivation.  A state is the canonical string; a "
@@ -119,8 +127,8 @@ CHECKS["C12"] = {
     "runs": [{
         "harness": "c12_history", "sources": ["engines/codec/c12_history.cpp"], "variant": "plain", "libset": "core",
         "quick": {"parts": 16, "deadline": 100,
-                  "bounds": "57 operations to fixpoint (4 992 states); stateless length<=2; 3! x 4! load orders"},
+                  "bounds": "81 operations to fixpoint (5 760 states); stateless length<=2; 3! x 4! load orders"},
         "thorough": {"parts": 16, "deadline": 800,
-                     "bounds": "63 operations to fixpoint (19 968 states); stateless length<=3; 4! x 6! load orders"},
+                     "bounds": "87 operations to fixpoint; stateless length<=3; 4! x 6! load orders"},
     }],
 }
